@@ -51,6 +51,9 @@ def handle : Handler := fun j a => do
           else if okc.isNone then
             a := a.mismatch s!"c10 host {h} acts impl={obs} repair state after={repr after} model candidates={repr (cands.map fun (x, r) => (x.filterMap actName, r))} on {j.compress}"
           -- monitors
+          -- a reachable stale master is marked for recovery in the same pass, whatever statement failed on it
+          if st.isMaster && !obs.contains "setRecovery" && (jStr failj "kind").toOption.getD "" != "dcs" then
+            a := a.violationSig "C10:stale-master-not-marked-for-recovery" s!"{h}: {obs} raw={raw} in {j.compress}"
           if fHost != h && obs.any (·.startsWith "OTHER") then a := a.violationSig "C10:unexpected-statement-in-repair" s!"{h}: {obs} in {j.compress}"
           if obs.any (·.startsWith "resetSlaveAlgorithm") || raw.contains "reset_replica_all" then
             let allowed := cfg.aggressive && (match before with
